@@ -36,12 +36,35 @@ def uses_tr(call, tr_ids):
     return False
 
 
-def tr_calls(e, tr_ids):
-    """Method calls inside e that receive the incoming `tr`: list of (method name, first argument expr)."""
+KNOWN_TR = ("iterm_tr", "term", "open_def", "call", "iterm")
+_FACTS = None
+_CONTAINER = {}
+
+
+def tr_calls(e, tr_ids, depth=2):
+    """Method calls inside e that receive the incoming `tr`: list of (method name, first argument expr, node).
+    A call of another first-party method that is handed `tr` (a helper split off the compiler's `term`) is looked
+    into: the calls it makes with its own parameter count as made here. _CONTAINER[id(node)] is the helper body the node lives in."""
     out = []
-    for n in find(e, lambda n: n.get("k") == "MethodCall" and n["m"]["name"] in ("iterm_tr", "term", "open_def", "call", "iterm")):
-        if uses_tr(n, tr_ids):
+    for n in find(e, lambda n: n.get("k") == "MethodCall"):
+        if not uses_tr(n, tr_ids):
+            continue
+        if n["m"]["name"] in KNOWN_TR:
             out.append((n["m"]["name"], n["args"][0] if n["args"] else None, n))
+            continue
+        c = n["m"].get("res") or n["m"].get("def") or ""
+        fn = _FACTS.hir_fn(c) if (_FACTS is not None and depth > 0 and c.startswith("jaq_core::compile::")) else None
+        if fn is None:
+            continue
+        # which parameter of the helper receives tr (parameter 0 is self)
+        ids = set()
+        for k, a in enumerate(n["args"]):
+            i, _ = local_id(a)
+            if i in tr_ids and k + 1 < len(fn["params"]):
+                ids |= {b["id"] for b in find(fn["params"][k + 1], lambda x: x.get("k") == "Bind")}
+        for mname, a0, node in tr_calls(fn["body"], ids, depth - 1):
+            _CONTAINER.setdefault(id(node), fn["body"])
+            out.append((mname, a0, node))
     return out
 
 
@@ -95,6 +118,8 @@ def cond_name(c, inits, depth=0):
 
 
 def run(facts, tier):
+    global _FACTS
+    _FACTS = facts
     t0 = time.time()
     rules = []
 
@@ -135,7 +160,7 @@ def run(facts, tier):
                 if name == "Fold":
                     # the projection only: the call must sit in the `foreach` arm with a third argument
                     for mname, a0, node in calls:
-                        inner = [mm for mm in find(arm["body"], lambda n: n.get("k") == "Match" and n.get("src") == "Normal") if find(mm, lambda x: x is node)]
+                        inner = [mm for mm in find(_CONTAINER.get(id(node)) or arm["body"], lambda n: n.get("k") == "Match" and n.get("src") == "Normal") if find(mm, lambda x: x is node)]
                         arms_with = [a for mm in inner for a in mm["arms"] if find(a["body"], lambda x: x is node)]
                         lits = [l for a in arms_with for l in find(a["pat"], lambda n: n.get("k") == "Lit" and "str" in n["lit"])]
                         if not any(l["lit"]["str"] == "foreach" for l in lits):
